@@ -1152,9 +1152,10 @@ pub fn panic_site(msg: &str) -> String {
 // ------------------------------------------------------------------ C19 ----
 
 /// The constant of C19.between: room for a partial raw link frame kept between polls by a
-/// resumable receiver (at most 255 B, 512 B with a doubling buffer), small bookkeeping and
-/// the like. Anything that grows with the history exceeds any constant soon.
-const BETWEEN_CONST: isize = 1024;
+/// resumable receiver (at most 255 B, 512 B with a doubling buffer), a bounded backlog of a
+/// kilobyte or two, small bookkeeping and the like. Anything that grows with the history
+/// exceeds any constant soon (a retained frame is 18 B: 4 KiB are 230 frames).
+const BETWEEN_CONST: isize = 4096;
 
 /// Floor of C19.frame: single allocations up to this size are never questioned (a bounded
 /// backlog or read-ahead buffer of a kilobyte or two is not a raw link frame buffer; a buffer
@@ -1375,7 +1376,7 @@ pub fn run_c19(sim: &Sim, prop: &str, tier: Tier) -> Outcome {
                         prop,
                         "C19.between",
                         format!(
-                            "between polls the receiver holds {} bytes; bound is fresh({}) + 1024 + 96 x announced({}) = {} (poll #{}, {} of {} frames taken)",
+                            "between polls the receiver holds {} bytes; bound is fresh({}) + 4096 + 96 x announced({}) = {} (poll #{}, {} of {} frames taken)",
                             live,
                             fresh,
                             announced,
